@@ -339,13 +339,13 @@ fn arb_op() -> impl Strategy<Value = Op> {
 pub fn run(ctx: &Ctx) {
     ctx.rule("operation sequences (<=60 ops, <=5 users) over create/remove user, verify (right / wrong / another user's password / unknown uid), create_session (default / lifetime 0 = already expired / 3600), refresh, invalidate, invalidate_user_session, get_uid_by_token, exists and requests to a with_auth_route route on a real App (no cookie / garbage / any token ever issued), with and without pepper, default and zero refresh lifetime; after every step every token ever issued is looked up and compared with a reference model. Non-trivial: a stale (expired / invalidated / replaced / removed-user) token is used after it died, or >=2 users hold sessions; distinct by sequence");
     ctx.assume("only lifetimes 0 and >=3600 s are used, so expectations never depend on the clock; Argon2 with default parameters");
-    let cases = ctx.tier.pick(1600u32, 32000u32);
+    let cases = ctx.share(ctx.tier.pick(1600u32, 32000u32)).max(16);
     let nshards = 16;
     crate::engine::shards(nshards, |i| {
         pt::run(
             ctx,
             "seq",
-            pt::Opts::new(cases / nshards as u32).salt(1700 + i as u64).shrink_iters(300),
+            pt::Opts::new(cases / nshards as u32).salt(ctx.salt_of(1700 + i as u64)).shrink_iters(300),
             (any::<bool>(), any::<bool>(), proptest::collection::vec(arb_op(), 1..60)).prop_map(|(pepper, zero_refresh, ops)| Case { pepper, zero_refresh, ops }),
             |c| serde_json::to_value(c).unwrap(),
             |c| {
